@@ -312,6 +312,34 @@ def num_axioms(atom):
             Implies(And(atom.t >= 0, atom.t <= 9), And(n == 1, atom.char(iv(0)) == 48 + atom.t))]
 
 
+_joinlen = z3.Function("joinlen", I, I)
+_joinchar = z3.Function("joinchar", I, I, I)
+_join_ids = {}
+
+
+class JoinAtom:
+    """concatenation of ALL elements of a symbolic sequence of strings (result of sep.join(symbolic list) with empty
+    separator). Opaque at character level (uninterpreted length / characters keyed by an id); compared structurally."""
+    __slots__ = ("seq", "jid", "is_str")
+
+    def __init__(self, seq, is_str, jid=None):
+        self.seq = seq
+        self.is_str = is_str
+        if jid is None:
+            key = (id(seq),)
+            jid = _join_ids.setdefault(key, len(_join_ids) + 1)
+        self.jid = jid
+
+    def length(self):
+        return _joinlen(iv(self.jid))
+
+    def char(self, i):
+        return _joinchar(iv(self.jid), i)
+
+    def __repr__(self):
+        return "JoinAtom#%d" % self.jid
+
+
 class SStr(V):
     """byte string or (latin-1) text string: rope of atoms"""
     __slots__ = ("atoms", "is_str")
@@ -379,6 +407,8 @@ class SStr(V):
         for a in self.atoms:
             if isinstance(a, Win) and a.is_str != is_str:
                 a = Win(a.base, a.lo, a.hi, a.xf, is_str)
+            elif isinstance(a, JoinAtom) and a.is_str != is_str:
+                a = JoinAtom(a.seq, is_str, a.jid)
             atoms.append(a)
         return SStr(atoms, is_str)
 
@@ -555,14 +585,16 @@ class SymSeqA:
 
 
 class HList:
-    """python list: either concrete items (list of V) or a symbolic view (SymSeq)"""
+    """python list: concrete items (list of V), or a symbolic view (SymSeqA), or -- only as the result of
+    concrete.extend(symbolic) -- a concrete prefix followed by a symbolic tail (prefix is not None)"""
 
-    def __init__(self, items=None, sym=None):
+    def __init__(self, items=None, sym=None, prefix=None):
         self.items = list(items) if items is not None else None
         self.sym = sym
+        self.prefix = list(prefix) if prefix is not None else None
 
     def clone(self):
-        return HList(self.items, self.sym)
+        return HList(self.items, self.sym, self.prefix)
 
     def is_concrete(self):
         return self.items is not None
